@@ -488,6 +488,16 @@ fn main() {
          (5xx -> ServerError, 429 -> RateLimited{Retry-After}, other -> HttpStatus) is represented by the scripted error variants, no HTTP traffic is generated",
     );
     ck.assume("retryable / non-retryable variants are the ones listed in ProtocolError::should_retry (reqwest::Error values cannot be constructed offline)");
+    ck.assume(
+        "tokio clamps a sleep it cannot represent (u64::MAX s) to 30 years and its virtual clock saturates after u64::MAX ms: delays later than 1000 years \
+         of virtual time are not judged, expected delays above 1e8 s are only checked from below, and no policy whose documented delay \
+         min(initial*m^k, max) lies in [1e14 s, 2^63 s) is generated (the paused clock would need ~10^8 hops to walk through it)",
+    );
+    ck.assume(
+        "the exact progression gap_k = min(initial*m^k, max) (jitter off, finite multiplier >= 1, no hint) and 'a retryable error is only returned after \
+         max_attempts retries' are taken from the field docs and the crate's own tests (test_backoff_progression, test_execute_exceed_max_attempts)",
+    );
+    ck.assume("a configuration that RetryPolicy::from_env refuses (Err) is not a constructible policy; from_env itself must not panic");
 
     // 1. exhaustive part of the grid
     let max_a = tier.pick(3u32, 4u32);
